@@ -301,6 +301,9 @@ struct Run<'a> {
     cur_strval: Option<Vec<u8>>,
     quiet: bool,
     cur_zinf: bool,
+    /// T3: a command naming two different keys has run (RENAME, RPOPLPUSH, LMOVE, MSETNX, ...): on the replicated node it
+    /// ran on its first key's shard alone, and everything after it may differ for that recorded reason
+    two_key_seen: bool,
     after_known: bool,
 }
 
@@ -313,6 +316,7 @@ impl<'a> Run<'a> {
         // one root cause, many commands: set members / hash fields / zset members go through
         // String::from_utf8_lossy, so a non-UTF-8 name comes back as U+FFFD bytes
         let mut key = key;
+        if self.sut.mode == Mode::Replicated && self.two_key_seen { key = "C01/replicated-node/two-key-command-runs-on-first-keys-shard".to_string(); }
         if let Some(c) = &self.cur {
             for a in c.iter().skip(1) {
                 if std::str::from_utf8(a).is_err() {
@@ -395,6 +399,16 @@ impl<'a> Run<'a> {
             // vocabulary (it answers 'unknown command') and is left out
             let keyless_ok = matches!(cname(c).as_str(), "KEYS" | "DBSIZE" | "FLUSHDB" | "FLUSHALL" | "MSET" | "MGET" | "EXISTS" | "PING");
             if parse_cmd(c).ok().map(|pc| pc.get_primary_key().is_some()) == Some(false) && !keyless_ok { return; }
+            let n = cname(c);
+            let two = match n.as_str() {
+                "RENAME" | "RENAMENX" | "RPOPLPUSH" | "SMOVE" | "COPY" => c.len() >= 3 && c[1] != c[2],
+                "LMOVE" | "BLMOVE" => c.len() >= 3 && c[1] != c[2],
+                "MSETNX" => c.len() >= 5 && c.iter().skip(1).step_by(2).any(|k| *k != c[1]),
+                "SORT" => c.iter().skip(2).any(|a| a.eq_ignore_ascii_case(b"STORE")),
+                "EVAL" | "EVALSHA" => true,
+                _ => false,
+            };
+            if two { self.two_key_seen = true; }
         }
         let name = cname(c);
         self.cur = Some(c.clone());
@@ -608,10 +622,11 @@ impl Property for C01 {
         let mode = [Mode::SetTime, Mode::Readonly, Mode::NodeClock, Mode::Sharded, Mode::Replicated][src.weighted(&if thorough { [5, 6, 1, 2, 2] } else { [20, 24, 4, 1, 1] })];
         let epoch_ms = BASE_EPOCH_MS + [0u64, 1, 500, 999][src.idx(4)];
         let seed = src.u64_any();
-        // (the replicated node routes a command by its first key and has 16 shards: one key in play keeps every command whole)
-        let mut g = GenCfg::swarm(src, ALL_FAMS, if mode == Mode::Replicated { 1 } else { 6 });
+        // (the replicated node has 16 shards; it splits MSET/MGET/DEL/EXISTS per key and routes every other command by its
+        // first key, so a two-key command whose keys live on different shards is the recorded finding)
+        let mut g = GenCfg::swarm(src, ALL_FAMS, if mode == Mode::Replicated { 3 } else { 6 });
         let fams = g.fams.clone();
-        let mut run = Run { sut: Sut::new(mode, epoch_ms, seed), model: RefRedis::new(epoch_ms), rep: RunReport::default(), trace: ctx.trace, ctx, stale: BTreeMap::new(), created: BTreeSet::new(), touched_created: false, crossed_deadline: false, ended: false, steps: 0, fp: fnv(0, &[mode as u8, (epoch_ms % 1000 / 4) as u8]), shown: Vec::new(), cur: None, cur_strval: None, quiet: false, cur_zinf: false, after_known: false };
+        let mut run = Run { sut: Sut::new(mode, epoch_ms, seed), model: RefRedis::new(epoch_ms), rep: RunReport::default(), trace: ctx.trace, ctx, stale: BTreeMap::new(), created: BTreeSet::new(), touched_created: false, crossed_deadline: false, ended: false, steps: 0, fp: fnv(0, &[mode as u8, (epoch_ms % 1000 / 4) as u8]), shown: Vec::new(), cur: None, cur_strval: None, quiet: false, cur_zinf: false, two_key_seen: false, after_known: false };
         run.rep.log(ctx.trace, || format!("mode {}  epoch {} ms  families {:?}  keys {:?}", mode.name(), epoch_ms, fams, g.keys.iter().map(|k| String::from_utf8_lossy(k).into_owned()).collect::<Vec<_>>()));
         run.rep.probe(match mode { Mode::SetTime => "mode_set_time", Mode::Readonly => "mode_readonly_ticks", Mode::NodeClock => "mode_ticks_only", Mode::Sharded => "mode_sharded", Mode::Replicated => "mode_replicated_node" });
         let mut ncmd = 0;
